@@ -42,7 +42,7 @@ PAIR_TB = [
     "hand-written model Impl/{Element,Diff,Emit,Render,ReaderMysql}.lean, tied by correspondence on generated pairs only",
     "regenerated facts: statement templates of sql-templates/*.go (factgen, go/ast) are the ones the model renders with",
     "third-party parsers (pingcap/parser etc.): type canonicalisation, option restore text and visitor order are assumptions validated by the correspondence",
-    "postgres and sqlite readers are not modelled yet (their cases are judged by the reference engine on the Go output only)",
+    "postgres reader glue modelled (Impl/ReaderPg.lean); sqlite reader glue modelled for CREATE TABLE / CREATE INDEX without DEFAULT only, the rest answers 'unmodelled' and is judged by the reference engine on the Go output only",
     "reference engine Spec/Exec.lean and grammar Spec/Grammar.lean (MySQL rules, read not proved)",
 ]
 PAIR_ASSUME = ["scripts are well-formed on the reference engine", "columns present on both sides keep their relative order",
